@@ -350,6 +350,32 @@ PROPS = {
         "level_note": "Trusted: the gate wrapper (delegates to the real search), direct fixed-depth searches of the repository as the reference the property names.",
         "technique": "property-based testing (rapid) with a gated search injected into the iterative-deepening harness (harness-owned schedule); differential against direct searches",
     },
+    "C18": {
+        "title": "determinism and isolation",
+        "run": "^TestC18_",
+        "level": "exploration",
+        "shards": 16,
+        "timeout": 600,
+        "thorough_scale": 10,
+        "thorough_timeout": 2400,
+        "rule": "C18/deterministic: (configuration incl. the four bundled engines' searches, root with history, depth) - the same "
+                "search repeated on fresh forks; repeated after an unrelated search with the SAME search object (SARGON keeps per-"
+                "search state) and with a separately constructed one; on a board built with a different Zobrist seed (table off); "
+                "and run in a goroutine alongside 0-3 other searches on other engines' search objects, compared with the sequential "
+                "results. Oracle: identical (score, PV, node count) in every comparison; the board the searches were forked from is "
+                "unchanged. C18/engine: two engines with the same seed, noise setting (0/10/500/5000 millipawns) and the same "
+                "search history must report identical final (score, PV, nodes) in each of 1-3 rounds; Engine.Position() and every "
+                "Engine.Board() observable are identical before and after an analysis run to completion and after a halted "
+                "unlimited analysis. Non-trivial = distinct cases with depth >= 2 and a root with history (deterministic), depth >= 2 "
+                "(engine). evaluations = cases (each 6+ searches).",
+        "assumptions": COMMON_ASSUMPTIONS + ["searches are repeated on fresh forks of the same game state, as the engine does",
+                                             "with noise on, only the last report of a finished analysis is compared (the PV channel keeps the latest report only)"],
+        "level_text": "Exploration: ~4k search cases x 6-9 searches and 2.5k engine cases per quick run; metamorphic relations "
+                      "(repeat, unrelated search in between, other seed, parallel execution, same noise seed) with exact equality "
+                      "of score, PV and node count.",
+        "level_note": "Trusted: nothing beyond equality of the repository's own outputs; goroutine scheduling in the parallel part is not owned by the harness.",
+        "technique": "property-based testing (rapid): metamorphic relations (repeat / interleave / reseed / parallel) with exact-equality oracle",
+    },
 }
 
 # Properties not claimed, with the reason (kept current).
